@@ -1,5 +1,5 @@
 /-
-`Inv4` (contiguous retry numbers) is preserved by every step of histories without foreign pods.
+`Inv4` (contiguous retry numbers) is preserved by every step (all actions, foreign pods included).
 Core Lean only.
 -/
 import FurikoModel.Proofs.JobCtlInvContig
@@ -21,7 +21,7 @@ structure PassFacts4 (j0 : JobObj) (s0 sp : Sys) (jo : JobObj) : Prop where
   podsSp : PodsGood j0 sp
   goodJo : Good j0 sp.d jo.job
   contigJo : Contig j0 sp.d jo.job.status.tasks
-  down0 : ∀ j, s0.job = some j → ∀ c ∈ s0.podCache, PodDown s0.d j.job.status.tasks c
+  down0 : ∀ j, s0.job = some j → ∀ c ∈ s0.podCache, c.ownerUid = some j0.uid → PodDown s0.d j.job.status.tasks c
   rvJo : jo.rv ≤ s0.rv
 
 theorem Inv4.jobGone {j0 : JobObj} {s s' : Sys} (h : Inv4 j0 s) (hg : JobGone s s') : Inv4 j0 s' := by
@@ -66,8 +66,9 @@ theorem Inv4.micro {j0 jo : JobObj} {s0 sp s s' : Sys} (hb : Base j0 s) (h2 : In
     · exact ⟨h4.frame hs.1, keep hs.1.job⟩
     · have ha := hs.1
       refine ⟨h4.podChange ha.static ha.job ha.jobEvs ?_, keep ha.job⟩
-      have hnew : ∀ j, s.job = some j → PodDown s.d j.job.status.tasks (newPod jo idx retry (nowT s)) := by
-        intro j hj idx' retry' hpi hri i h0 hi
+      have hnew : ∀ j, s.job = some j → (newPod jo idx retry (nowT s)).ownerUid = some j0.uid →
+          PodDown s.d j.job.status.tasks (newPod jo idx retry (nowT s)) := by
+        intro j hj _ idx' retry' hpi hri i h0 hi
         simp only [newPod, Option.some.injEq] at hpi hri
         subst hpi; subst hri
         have hf := createReq_facts hreq
@@ -97,9 +98,11 @@ theorem Inv4.micro {j0 jo : JobObj} {s0 sp s s' : Sys} (hb : Base j0 s) (h2 : In
         · simp at hq
     · refine ⟨h4.podChange hs.static hs.job hs.jobEvs ?_, keep hs.job⟩
       have hold := (findPod_some hs.found).1
-      have hnew : ∀ j, s.job = some j → PodDown s.d j.job.status.tasks
+      have hnew : ∀ j, s.job = some j →
+          ({ p with pod := { p.pod with deletionTimestamp := some (nowT s) } } : PodObj).ownerUid = some j0.uid →
+          PodDown s.d j.job.status.tasks
           { p with pod := { p.pod with deletionTimestamp := some (nowT s) } } :=
-        fun j hj => (h4.down j hj p (Or.inl hold)).transfer rfl rfl
+        fun j hj ho => (h4.down j hj p (Or.inl hold) ho).transfer rfl rfl
       intro q hq
       rw [hs.pods, hs.static.podCache, hs.podEvs] at hq
       rcases hq with hq | hq | hq
@@ -138,10 +141,10 @@ theorem Inv4.micro {j0 jo : JobObj} {s0 sp s s' : Sys} (hb : Base j0 s) (h2 : In
           have := pf.rvJo
           omega
         · rw [hc'] at h; cases h
-      have hdown : ∀ c ∈ sp.podCache, PodDown sp.d jo.job.status.tasks c := by
-        intro c hcm
+      have hdown : ∀ c ∈ sp.podCache, c.ownerUid = some j0.uid → PodDown sp.d jo.job.status.tasks c := by
+        intro c hcm ho
         rw [pf.frame.d]
-        exact pf.down0 jo hj0 c (pf.frame.podCache ▸ hcm)
+        exact pf.down0 jo hj0 c (pf.frame.podCache ▸ hcm) ho
       have hcontig := sync_contig sp jo pf.wf2 pf.podsSp hjo pf.goodJo pf.contigJo hdown
       have hgood := (sync_good sp jo pf.wf2 pf.podsSp hjo pf.goodJo).1
       have hle := (sync_spec sp jo sp (CreatePhase.refl _)).2
@@ -213,7 +216,7 @@ theorem Inv4.init {j0 : JobObj} (hwf : WF j0) (clock : Int) (cfg : ExecConfig) (
     exact fun n hn => hn
 
 theorem Inv4.step {j0 : JobObj} {s : Sys} (hb : Base j0 s) (h2 : Inv2 j0 s) (h4 : Inv4 j0 s) (hwf : WF2 j0 s.d)
-    (a : Action) (hnf : noForeign s a) (hal : Allowed j0 s a) : Inv4 j0 (JobCtl.step s a) := by
+    (a : Action) (hal : Allowed j0 s a) : Inv4 j0 (JobCtl.step s a) := by
   cases a with
   | setFaults fs => exact h4.of_same rfl rfl (fun p hp => hp) (fun _ h => h)
   | work =>
@@ -260,8 +263,8 @@ theorem Inv4.step {j0 : JobObj} {s : Sys} (hb : Base j0 s) (h2 : Inv2 j0 s) (h4 
         obtain ⟨o, ho, hk⟩ := (optSat_iff _ _).mp hal
         rw [hs.found] at ho; cases ho; exact hk
       have hold := (findPod_some hs.found).1
-      have hnew : ∀ j, s.job = some j → PodDown s.d j.job.status.tasks p :=
-        fun j hj => (h4.down j hj old (Or.inl hold)).transfer hk.2.2.2.2.2.2.2.1 hk.2.2.2.2.2.2.1
+      have hnew : ∀ j, s.job = some j → p.ownerUid = some j0.uid → PodDown s.d j.job.status.tasks p :=
+        fun j hj ho => (h4.down j hj old (Or.inl hold) (hk.1 ▸ ho)).transfer hk.2.2.2.2.2.2.2.1 hk.2.2.2.2.2.2.1
       refine h4.podChange hs.static hs.job hs.jobEvs ?_
       intro q hq
       rw [hs.pods, hs.static.podCache, hs.podEvs] at hq
@@ -310,15 +313,31 @@ theorem Inv4.step {j0 : JobObj} {s : Sys} (hb : Base j0 s) (h2 : Inv2 j0 s) (h4 
     · rw [hs]; exact h4
     · exact h4.jobWrite_same h2 hwf hs hc rfl
     · exact h4.jobGone hs
-  | createForeign p => exact absurd hnf (by simp [noForeign])
+  | createForeign p =>
+    show Inv4 j0 (createForeignPod s p)
+    rcases createForeignPod_spec s p with hs | hs
+    · rw [hs]; exact h4
+    · -- the new pod is not controlled by the Job: nothing is claimed about it
+      refine h4.podChange hs.static hs.job hs.jobEvs ?_
+      intro q hq
+      rw [hs.pods, hs.static.podCache, hs.podEvs] at hq
+      rcases hq with hq | hq | hq
+      · rcases List.mem_append.mp hq with hq | hq
+        · exact Or.inl (Or.inl hq)
+        · simp only [List.mem_singleton] at hq; subst hq; exact Or.inr (fun _ _ ho => absurd ho hal)
+      · exact Or.inl (Or.inr (Or.inl hq))
+      · rcases List.mem_append.mp hq with hq | hq
+        · exact Or.inl (Or.inr (Or.inr hq))
+        · simp only [List.mem_singleton, PEv.upsert.injEq] at hq; subst hq
+          exact Or.inr (fun _ _ ho => absurd ho hal)
 
-/-- `Inv4` holds in every state reachable without foreign pods -/
-theorem inv4_of_reach {ok : Sys → Action → Prop} (hok : ∀ s a, ok s a → noForeign s a) {j0 : JobObj} {s : Sys}
+/-- `Inv4` holds in every reachable state (all actions allowed) -/
+theorem inv4_of_reach {ok : Sys → Action → Prop} {j0 : JobObj} {s : Sys}
     (hr : Reach ok j0 s) (hwf : WF2 j0 s.d) : Inv4 j0 s := by
   induction hr with
   | init c cfg d hw => exact Inv4.init hw c cfg d
   | step a hr' hoka hal ih =>
     rw [step_d] at hwf
-    exact (ih hwf).step (base_of_reach hr') (inv2_of_reach hok hr' hwf) hwf a (hok _ a hoka) hal
+    exact (ih hwf).step (base_of_reach hr') (inv2_of_reach hr' hwf) hwf a hal
 
 end Furiko.JobCtl
